@@ -39,6 +39,8 @@ type C16Op struct {
 }
 
 type C16Case struct {
+	// Sched: schedule vector for goroutines / channels / select choices of the code under test (single-task case body = first task)
+	Sched   []uint16 `json:"sched,omitempty"`
 	Max     int      `json:"max"`     // constructor argument
 	Queries []string `json:"queries"` // Go-quoted
 	Ops     []C16Op  `json:"ops"`
@@ -108,6 +110,9 @@ func genC16(rt *rapid.T) C16Case {
 		return op
 	})
 	c.Ops = rapid.SliceOfN(opGen, 1, tierN(40, 120)).Draw(rt, "ops")
+	if rapid.IntRange(0, 3).Draw(rt, "hassched") == 0 {
+		c.Sched = genSchedule(rt, 40)
+	}
 	return c
 }
 
@@ -253,6 +258,13 @@ func checkViews(sh *history.SearchHistory, m []histEntry, k int) string {
 }
 
 func runC16(c C16Case) *Outcome {
+	if c.CLI != nil {
+		return runC16Body(c)
+	}
+	return scheduledOutcome(c.Sched, func() *Outcome { return runC16Body(c) })
+}
+
+func runC16Body(c C16Case) *Outcome {
 	o := &Outcome{Probes: map[string]int{}}
 	if c.CLI != nil {
 		return runC16CLI(c.CLI, o)
@@ -288,7 +300,11 @@ func runC16(c C16Case) *Outcome {
 	var beh []string
 	collapsed, trimmed, roundtrips, damagedLoads := 0, 0, 0, 0
 	guard := func(what string, f func()) (pan any) {
-		defer func() { pan = recover() }()
+		defer func() {
+			if pan = recover(); pan != nil && simrt.IsAbort(pan) {
+				panic(pan)
+			}
+		}()
 		f()
 		return nil
 	}
